@@ -27,6 +27,9 @@ of its values: a `CodeData` (coordinates + the operators returned for every stab
 location + the two logical lists).  `get_deformation(loc, name, **kwargs)` for the chosen
 `(name, kwargs)` is the function `D : Coord → PauliMap`.
 
+The three `hasattr` tests are made and the three attributes are set in the same call, so
+one `Option` (`captured`) stands for all three.
+
 Assumption recorded here (not checked by this model): the class getters build a fresh
 dict on every call, so the in-place relabelling of the wrapper does not leak into later
 calls.
